@@ -7,8 +7,10 @@ import (
 	"github.com/jsightapi/jsight-api-core/jerr"
 )
 
+// collectRules registers the ENUM rules in the order of the document after
+// the PASTE directives have been replaced by the content of their macros.
 func (core *JApiCore) collectRules() *jerr.JApiError {
-	return core.collectRulesFromDirectives(core.directives)
+	return core.collectRulesFromDirectives(core.directivesWithPastes)
 }
 
 func (core *JApiCore) collectRulesFromDirectives(dd []*directive.Directive) *jerr.JApiError {
